@@ -938,6 +938,22 @@ class Interp:
         return [(target, val)]
 
     def st_For(self, s, frame, live):
+        if isinstance(s.iter, ast.IfExp) and not s.orelse:
+            # for x in (A if c else ()): ...   is   if c: for x in A: ...
+            def empty(n):
+                return isinstance(n, (ast.Tuple, ast.List)) and not n.elts
+            if empty(s.iter.orelse) or empty(s.iter.body):
+                neg = empty(s.iter.body)
+                loop = ast.For(target=s.target, body=s.body, orelse=[],
+                               iter=s.iter.orelse if neg else s.iter.body,
+                               type_comment=None)
+                test = s.iter.test
+                if neg:
+                    test = ast.copy_location(
+                        ast.UnaryOp(op=ast.Not(), operand=test), test)
+                node = ast.If(test=test, body=[ast.copy_location(loop, s)],
+                              orelse=[])
+                return self.st_If(ast.copy_location(node, s), frame, live)
         it = self.eval(s.iter, frame, live)
         itu = self.unname(it)
         lit = literal_items(itu, self.unname, self._known_len(live))
@@ -1433,6 +1449,12 @@ class Interp:
             return self._is_literal(v.args[1]) and self._is_literal(v.args[2])
         if v.op == "named":
             return self._is_literal(v.args[1])
+        if v.op == "call" and v.args[0].op == "cls":
+            # a record (NamedTuple / dataclass without constructor code) of
+            # literals: a row of a table
+            rec = self._record_fields(v)
+            return rec is not None and all(self._is_literal(x)
+                                           for x in rec.values())
         return False
 
     @staticmethod
@@ -1908,6 +1930,17 @@ class Interp:
             c = self.as_cond(v)
             if tm.is_const(c):
                 return const(not tm.const_val(c))
+            vu = self.unname(v)
+            if vu.op == "call" and vu.args[0].op == "attr" and \
+                    vu.args[0].args[1] == "any" and not vu.args[1] and \
+                    not vu.args[2]:
+                ne = self.unname(vu.args[0].args[0])
+                if tm.callee_name(ne) == "numpy.not_equal" and \
+                        len(ne.args[1]) == 2 and not ne.args[2]:
+                    # not np.not_equal(a, b).any()  is  np.equal(a, b).all()
+                    return tm.call(tm.attr(tm.call(
+                        tm.glob("numpy.equal"), ne.args[1], ()), "all"),
+                        (), ())
             return T("unop", "Not", v)
         if tm.is_const(v) and isinstance(tm.const_val(v), (int, float)) \
                 and not isinstance(tm.const_val(v), bool):
@@ -2227,6 +2260,20 @@ class Interp:
         self.loops = saved_loops
         frame.env = saved_env
         elt = elts[0] if len(elts) == 1 else T("tuple", *elts)
+        if kind in ("list", "gen") and len(loops) == 1:
+            # [f(e) for e in (g(x) for x in X if p(x)) if q(e)]  is
+            # [f(g(x)) for x in X if p(x) if q(g(x))]
+            it0, lid0 = loops[0]
+            inner = self.unname(it0)
+            if inner.op == "comp" and inner.args[0] == "gen" and \
+                    len(inner.args[2]) == 1:
+                el = T("elem", it0, lid0)
+                ielt = inner.args[1]
+                sub_ = lambda t: self._refold(t.map(
+                    lambda x: ielt if x is el else None))
+                elt = sub_(elt)
+                conds = list(inner.args[3]) + [sub_(c) for c in conds]
+                loops = list(inner.args[2])
         return T("comp", kind, elt, tuple(loops), tuple(conds))
 
     def ev_ListComp(self, n, frame, live):
@@ -2593,6 +2640,18 @@ class Interp:
                 conds = [self.as_cond(x) for x in its]
                 return (tm.mk_or if name.endswith("any") else
                         tm.mk_and)(*conds)
+        if name == "builtins.map" and len(args) >= 3 and not kwargs and \
+                self.unname(args[0]).op in ("closure", "func", "global",
+                                            "attr", "bound", "cls", "call") \
+                and not any(a.op == "star" for a in args):
+            # map(F, A, B, ...) is (F(a, b, ...) for a, b, ... in zip(A, B))
+            lid = self.new_loop(node)
+            zipped = tm.call(tm.glob("builtins.zip"), tuple(args[1:]), ())
+            els = [T("elem", a, lid) for a in args[1:]]
+            fu = self.unname(args[0])
+            val = self.do_call(fu if fu.op in ("closure", "func") else
+                               args[0], els, [], node, frame, live)
+            return T("comp", "gen", val, ((zipped, lid),), ())
         if name == "functools.reduce" and len(args) in (2, 3) and not kwargs:
             # a fold over a completely known sequence: unrolled
             its = literal_items(args[1], self.unname)
@@ -2863,7 +2922,12 @@ class Interp:
         out: Dict[str, T] = {}
         pos = list(args)
         if target.cls is not None and not target.is_static and params:
-            if recv is not None:
+            if "classmethod" in (target.decorators or ()):
+                # Class.make(...): cls is the class (of the receiver, which
+                # is not told apart from the defining class here)
+                out[params[0]] = T("cls", target.cls.qualname)
+                params = params[1:]
+            elif recv is not None:
                 out[params[0]] = recv
                 params = params[1:]
             # unbound call Class.m(obj, ...): first positional is self
@@ -2908,6 +2972,27 @@ class Interp:
             # is the generator expression (e for x in it if not c)
             gen = _generator_as_genexp(target.node)
             if gen is None:
+                # straight-line code that yields a fixed number of values:
+                # to its consumer the tuple of those values
+                vals = []
+                lv = live
+                for st in target.node.body:
+                    if isinstance(st, ast.Expr) and \
+                            isinstance(st.value, ast.Yield) and \
+                            st.value.value is not None:
+                        vals.append(self.eval(st.value.value, newf, lv))
+                    elif isinstance(st, (ast.Assign, ast.AnnAssign)) and \
+                            not any(isinstance(x, (ast.Yield, ast.YieldFrom))
+                                    for x in ast.walk(st)):
+                        lv = self.exec_block([st], newf, lv)
+                    elif isinstance(st, ast.Expr) and \
+                            isinstance(st.value, ast.Constant):
+                        pass
+                    else:
+                        vals = None
+                        break
+                if vals:
+                    return T("tuple", *vals)
                 return tm.unknown(f"generator {target.qualname}")
             return self.eval(gen, newf, live)
         self.stack.append(target.qualname)
